@@ -47,6 +47,8 @@ T = {
  'c17l': ('k > 32 random bits (explicit, or num_randbits=None with a long lost part)', 'C17 draw-count'),
  'c19p': ('one pass with two edits in a block of more than ten statements, one at a one-digit and one at a two-digit position', 'C19 forward-unrelated on long_block (needed that root)'),
  'c19q': ('lift_context on a program that writes the same context expression at two places', 'C19 forward-unrelated / edit-log-miscounts (needed the root rounds_c and the checks on whole-program passes that report edits)'),
+ 'c18q': ('two threads rounding non-dyadic operands under the same module-level context object (or a cancellation between the two stores of the memo)', 'C18 H1/A3'),
+ 'c18r': ("a definition evaluated only on a throw-away interpreter, freed, its address taken by a different definition", 'C18 A3 on make_plain_fn (needed factory-function definitions on throw-away interpreters; allocator-dependent)'),
 }
 base = os.path.join(os.path.dirname(os.path.dirname(os.path.abspath(__file__))), 'seeded')
 for mid, (needs, caught) in T.items():
